@@ -138,11 +138,12 @@ func runC26(c *Ctx, cfg c26Config) {
 				c.Undecided("C26-N1", key+"/uses", f.Pos(), "no SSA body")
 				continue
 			}
-			a, b := ngParam(sf, 1), ngParam(sf, 2)
-			if a == nil || b == nil {
+			pa, pb := ngParam(sf, 1), ngParam(sf, 2)
+			if pa == nil || pb == nil {
 				c.Undecided("C26-N1", key+"/uses", f.Pos(), "operand parameters not found")
 				continue
 			}
+			a, b := ngTrack(pa), ngTrack(pb)
 			sp := *spec
 			sp.Delegate = func(call ssa.CallInstruction, v ssa.Value) bool {
 				return c26IsDelegation(call.Common(), a, b, sibs, method)
@@ -193,7 +194,11 @@ func runC26(c *Ctx, cfg c26Config) {
 // c26IsDelegation: the call passes a and b, unchanged and in order, to a sibling
 // implementation of the same method (statically resolved) or to the interface method itself.
 func c26IsDelegation(cc *ssa.CallCommon, a, b ssa.Value, sibs map[*types.Func]bool, method string) bool {
-	args := cc.Args
+	tr := map[ssa.Value]bool{a: true, b: true}
+	args := []ssa.Value{}
+	for _, x := range cc.Args {
+		args = append(args, ngCanon(x, tr))
+	}
 	if cc.IsInvoke() {
 		if cc.Method.Name() != method {
 			return false
@@ -223,7 +228,8 @@ func c26NullReturnOK(ret *ssa.Return, a, b ssa.Value, spec *NilGuardSpec, sibs m
 	if fn := ngStaticCallee(&call.Call); fn != nil {
 		if d, ok := spec.Deciders[fn]; ok {
 			// res of helper(a,b): flag result is the other one
-			return ex.Index != d.Flag && len(call.Call.Args) == 2 && call.Call.Args[0] == a && call.Call.Args[1] == b
+			tr := map[ssa.Value]bool{a: true, b: true}
+			return ex.Index != d.Flag && len(call.Call.Args) == 2 && ngCanon(call.Call.Args[0], tr) == a && ngCanon(call.Call.Args[1], tr) == b
 		}
 	}
 	if ex.Index == 0 && c26IsDelegation(&call.Call, a, b, sibs, method) {
